@@ -191,6 +191,11 @@ type ConnScript struct {
 	Dies string `json:"dies"`
 	// WriteFaults: stream offsets at which a Write accepts only part of its bytes and times out
 	WriteFaults []int `json:"writeFaults"`
+	// StopAt (k > 0): the application stops the handler while the k-th message of this connection is inside its (slow) callback -
+	// from another goroutine, or (StopInside) from the callback itself.  What was queued may still be delivered or not; what IS
+	// delivered is still the first messages the peer sent, in order, one at a time.
+	StopAt     int  `json:"stopAt"`
+	StopInside bool `json:"stopInside"`
 }
 
 type FScenario struct {
@@ -229,7 +234,8 @@ type rec struct {
 func attach(h interface {
 	HandleIncoming(string, simplefixgo.IncomingHandlerFunc) int64
 	HandleOutgoing(string, simplefixgo.OutgoingHandlerFunc) int64
-}, r *rec) {
+	Stop()
+}, r *rec, cs *ConnScript) {
 	h.HandleIncoming(simplefixgo.AllMsgTypes, func(b []byte) bool {
 		r.mu.Lock()
 		r.inCb++
@@ -237,7 +243,17 @@ func attach(h interface {
 			r.overlap = true
 		}
 		r.delivered = append(r.delivered, toB(b))
+		k := len(r.delivered)
 		r.mu.Unlock()
+		if cs.StopAt > 0 && k == cs.StopAt {
+			if cs.StopInside {
+				h.Stop()
+				time.Sleep(5 * time.Millisecond)
+			} else {
+				go h.Stop()
+				time.Sleep(20 * time.Millisecond)
+			}
+		}
 		time.Sleep(50 * time.Microsecond)
 		r.mu.Lock()
 		r.inCb--
@@ -322,7 +338,7 @@ func RunFraming(sc *FScenario) ([]FrameObs, string) {
 			return nil, "initiator scenarios have one connection"
 		}
 		h := simplefixgo.NewInitiatorHandler(context.Background(), fixgen.FieldMsgType, sc.Buf)
-		attach(h, recs[0])
+		attach(h, recs[0], &sc.Conns[0])
 		handlers[0] = h
 		ini := simplefixgo.NewInitiator(conns[0], h, sc.Buf, time.Second)
 		go func() { _ = ini.Serve() }()
@@ -338,7 +354,7 @@ func RunFraming(sc *FScenario) ([]FrameObs, string) {
 				i := next
 				next++
 				mu.Unlock()
-				attach(h, recs[i])
+				attach(h, recs[i], &sc.Conns[i])
 				handlers[i] = h
 				ready <- struct{}{}
 			})
@@ -384,8 +400,14 @@ func RunFraming(sc *FScenario) ([]FrameObs, string) {
 		waitFor(total, func() bool {
 			recs[i].mu.Lock()
 			defer recs[i].mu.Unlock()
+			if sc.Conns[i].StopAt > 0 {
+				return len(recs[i].delivered) >= sc.Conns[i].StopAt
+			}
 			return len(recs[i].delivered) >= len(sc.Conns[i].Sent)
 		})
+		if sc.Conns[i].StopAt > 0 {
+			time.Sleep(150 * time.Millisecond) // what was queued behind the stop may still be dispatched
+		}
 	}
 	if sc.Simultaneous {
 		// the handlers were created in an order of their own: wait until every connection's messages have arrived somewhere,
@@ -479,6 +501,10 @@ func RunFraming(sc *FScenario) ([]FrameObs, string) {
 		// a connection whose peer died: the property says nothing about messages still on their way to the handler at that moment;
 		// what WAS delivered must still be exactly the first messages the peer sent
 		if sc.Conns[i].Dies != "" && len(o.Delivered) < len(o.Sent) {
+			o.Sent = o.Sent[:len(o.Delivered)]
+		}
+		// ... and likewise about messages queued behind a stop of the handler (but the message being dispatched was delivered)
+		if k := sc.Conns[i].StopAt; k > 0 && len(o.Delivered) >= k && len(o.Delivered) < len(o.Sent) {
 			o.Sent = o.Sent[:len(o.Delivered)]
 		}
 		if o.Delivered == nil {
